@@ -1,5 +1,22 @@
 # Per-property configuration of bin/check: Lean modules holding the property theorems, level, notes.
 PROPS = {
+    "C03": {
+        "lean": ["Knut.Properties.C03"],
+        "level": "proof",
+        "claim": "PARTIAL proof + full correspondence + exact monitor. Proved for all journals/days on the model of ComputePrices/Valuate: C03_flow_valued_at_booking_day (every booking is "
+                 "valued as quantity if in V, else Truncate8(quantity x price of its own day)), C03_missing_price_is_error / C03_missing_price_fails_day (a needed absent price fails the day: no number), "
+                 "C03_adjustment_shape (daily adjustment = Truncate8((p_d - p_{d-1}) x Q_{d-1})), C03_gain_account (booked between the account and Income:<its path> only), "
+                 "C03_revaluation_error_if_price_vanished, C03_telescope (the exact identity Q_{d-1}p_{d-1} + (p_d - p_{d-1})Q_{d-1} + sum q_i p_d = Q_d p_d) and C03_trunc_error (each Truncate8 loses "
+                 "less than one unit of the 8th decimal). NOT mechanised: the induction over days composing the last two into |shown - (MTM_D - MTM_{F-1})| <= steps x 1e-8. That bound is decided "
+                 "on every run: Spec.mtm (exact, in Lean: sum over commodities of summed quantity x Prices.normalize price, no truncation) is compared with every A/L cell of the REAL "
+                 "`knut balance -v V --digits 10` report; valued reports are also compared byte for byte with the pipeline model. Known finding: with --from after a position was "
+                 "acquired the report shows the value change inside the window, not the absolute mark-to-market (design behaviour).",
+        "note": "Trusted: Lean kernel; axioms propext, Classical.choice, Quot.sound; price normalisation is C12's model (Knut.Model.Prices); text-table parsing of the harness (indentation -> account path).",
+        "rule": "journals with price histories (sparse/daily redeclarations, direct, inverse and chained declarations, an eighth with some declarations dropped so that valuation must fail), "
+                "position histories with sign changes and liabilities, many-decimal quantities; flags: -v V, all intervals, --from/--to/--last, --close on/off, --digits 10. "
+                "class = (outcome, flag signature, size bucket).",
+        "assumptions": ["no mapping/filters/--diff in this check's flag vectors (cells are then per-account cumulative values)"],
+    },
     "C09": {
         "lean": ["Knut.Properties.C09"],
         "level": "proof",
